@@ -201,6 +201,29 @@ func selftest(verbose bool) error {
 		}
 		expect("loopvar/"+tc.fn, len(loopVarAliasSites(f)) > 0, tc.bad)
 	}
+	for _, tc := range []struct {
+		fn  string
+		bad bool
+	}{{"IncOk", false}, {"IncBad", true}} {
+		f := u.Method(fx, "counter", tc.fn)
+		if f == nil {
+			return fmt.Errorf("fixture %s missing", tc.fn)
+		}
+		expect("lostupdate/"+tc.fn, len(lostUpdatesThroughValueReceiver(f)) > 0, tc.bad)
+	}
+	for _, tc := range []struct {
+		fn  string
+		bad bool
+	}{{"CopyOk", false}, {"CopyBad", true}} {
+		f := u.Func(fx, tc.fn)
+		if f == nil {
+			return fmt.Errorf("fixture %s missing", tc.fn)
+		}
+		cs := plaintextCopies(f, func(v ssa.Value) bool {
+			return isByteSlice(v.Type()) && strings.HasSuffix(trimAddr(accessPath(v)), ".Plaintext")
+		})
+		expect("plaincopy/"+tc.fn, len(cs) > 0, tc.bad)
+	}
 	if len(fails) > 0 {
 		return fmt.Errorf("%s", strings.Join(fails, "; "))
 	}
